@@ -506,14 +506,18 @@ func (group *Group) feedRtpPacket(pkt rtprtcp.RtpPacket) {
 		}
 
 		if !boundaryChecked {
-			switch group.sdpCtx.GetVideoPayloadTypeBase() {
-			case base.AvPacketPtAvc:
-				boundary = rtprtcp.IsAvcBoundary(pkt)
-			case base.AvPacketPtHevc:
-				boundary = rtprtcp.IsHevcBoundary(pkt)
-			default:
-				// 注意，不是avc和hevc时，直接发送
-				boundary = true
+			// 注意，只有视频包才可能是GOP的起始位置。
+			// 音频包（比如G711、Opus的裸数据）如果按视频的格式去解析，可能恰好被误判成关键帧
+			if group.sdpCtx.IsVideoPayloadTypeOrigin(int(pkt.Header.PacketType)) {
+				switch group.sdpCtx.GetVideoPayloadTypeBase() {
+				case base.AvPacketPtAvc:
+					boundary = rtprtcp.IsAvcBoundary(pkt)
+				case base.AvPacketPtHevc:
+					boundary = rtprtcp.IsHevcBoundary(pkt)
+				default:
+					// 注意，不是avc和hevc时，直接发送
+					boundary = true
+				}
 			}
 			boundaryChecked = true
 		}
